@@ -461,11 +461,11 @@ func run(c *props.Ctx) {
 // the same rule lists as in roundTrip, written out literally, so that a renamed or re-typed wire field
 // shows even though encoding and decoding stay consistent with each other.
 var golden = map[string]string{
-	"flow":           `[{"id":"1","resource":"r","tokenCalculateStrategy":1,"controlBehavior":1,"threshold":12.5,"relationStrategy":1,"refResource":"q","maxQueueingTimeMs":7,"warmUpPeriodSec":3,"warmUpColdFactor":4,"statIntervalInMs":700,"lowMemUsageThreshold":0,"highMemUsageThreshold":0,"memLowWaterMarkBytes":0,"memHighWaterMarkBytes":0},{"id":"2","resource":"m","tokenCalculateStrategy":2,"controlBehavior":0,"threshold":1,"relationStrategy":0,"refResource":"","maxQueueingTimeMs":0,"warmUpPeriodSec":0,"warmUpColdFactor":0,"statIntervalInMs":0,"lowMemUsageThreshold":1000,"highMemUsageThreshold":10,"memLowWaterMarkBytes":1048576,"memHighWaterMarkBytes":1073741824}]`,
+	"flow":           `[{"id":"1","resource":"r","tokenCalculateStrategy":1,"controlBehavior":1,"threshold":12.5,"relationStrategy":1,"refResource":"q","maxQueueingTimeMs":7,"warmUpPeriodSec":3,"warmUpColdFactor":4,"statIntervalInMs":700,"lowMemUsageThreshold":0,"highMemUsageThreshold":0,"memLowWaterMarkBytes":0,"memHighWaterMarkBytes":0},{"id":"2","resource":"m","tokenCalculateStrategy":2,"controlBehavior":0,"threshold":1,"relationStrategy":0,"refResource":"","maxQueueingTimeMs":0,"warmUpPeriodSec":0,"warmUpColdFactor":0,"statIntervalInMs":0,"lowMemUsageThreshold":1000,"highMemUsageThreshold":10,"memLowWaterMarkBytes":1048576,"memHighWaterMarkBytes":1099511627776}]`,
 	"system":         `[{"id":"1","metricType":4,"triggerCount":0.75,"strategy":1},{"id":"2","metricType":0,"triggerCount":3,"strategy":-1}]`,
 	"circuitbreaker": `[{"id":"1","resource":"r","strategy":0,"retryTimeoutMs":3000,"minRequestAmount":10,"statIntervalMs":5000,"statSlidingWindowBucketCount":5,"maxAllowedRtMs":80,"threshold":0.4,"probeNum":3}]`,
 	"isolation":      `[{"id":"1","resource":"r","metricType":0,"threshold":4000000000}]`,
-	"hotspot":        `[{"id":"1","resource":"r","metricType":1,"controlBehavior":1,"paramIndex":-2,"threshold":9,"maxQueueingTimeMs":5,"burstCount":0,"durationInSec":3,"paramsMaxCapacity":77,"specificItems":[{"valKind":0,"valStr":"-3","threshold":1},{"valKind":1,"valStr":"x|y","threshold":2},{"valKind":2,"valStr":"false","threshold":3},{"valKind":3,"valStr":"2.25","threshold":4}]}]`,
+	"hotspot":        `[{"id":"1","resource":"r","metricType":1,"controlBehavior":1,"paramIndex":-2,"threshold":9,"maxQueueingTimeMs":5,"burstCount":0,"durationInSec":3,"paramsMaxCapacity":77,"specificItems":[{"valKind":0,"valStr":"-3","threshold":1},{"valKind":1,"valStr":"x|y","threshold":2},{"valKind":2,"valStr":"false","threshold":3},{"valKind":3,"valStr":"2.25","threshold":4},{"valKind":0,"valStr":"13800138000","threshold":9000000000},{"valKind":0,"valStr":"-9000000000","threshold":6}]}]`,
 }
 
 // roundTrip: a rule list written in the module's wire format decodes to exactly the rules it describes.
@@ -498,7 +498,7 @@ func roundTrip(c *props.Ctx, m *mod) {
 		check("flow", []*flow.Rule{
 			{ID: "1", Resource: "r", TokenCalculateStrategy: flow.WarmUp, ControlBehavior: flow.Throttling, Threshold: 12.5, RelationStrategy: flow.AssociatedResource, RefResource: "q",
 				MaxQueueingTimeMs: 7, WarmUpPeriodSec: 3, WarmUpColdFactor: 4, StatIntervalInMs: 700},
-			{ID: "2", Resource: "m", TokenCalculateStrategy: flow.MemoryAdaptive, Threshold: 1, LowMemUsageThreshold: 1000, HighMemUsageThreshold: 10, MemLowWaterMarkBytes: 1 << 20, MemHighWaterMarkBytes: 1 << 30},
+			{ID: "2", Resource: "m", TokenCalculateStrategy: flow.MemoryAdaptive, Threshold: 1, LowMemUsageThreshold: 1000, HighMemUsageThreshold: 10, MemLowWaterMarkBytes: 1 << 20, MemHighWaterMarkBytes: 1 << 40},
 		}, datasource.FlowRuleJsonArrayParser, id)
 	case "system":
 		check("system", []*system.Rule{{ID: "1", MetricType: system.CpuUsage, TriggerCount: 0.75, Strategy: system.BBR}, {ID: "2", MetricType: system.Load, TriggerCount: 3, Strategy: system.NoAdaptive}},
@@ -510,9 +510,11 @@ func roundTrip(c *props.Ctx, m *mod) {
 		check("isolation", []*isolation.Rule{{ID: "1", Resource: "r", MetricType: isolation.Concurrency, Threshold: 4000000000}}, datasource.IsolationRuleJsonArrayParser, id)
 	case "hotspot":
 		wire := []*datasource.HotspotRule{{ID: "1", Resource: "r", MetricType: hotspot.QPS, ControlBehavior: hotspot.Throttling, ParamIndex: -2, Threshold: 9, MaxQueueingTimeMs: 5, BurstCount: 0, DurationInSec: 3, ParamsMaxCapacity: 77,
-			SpecificItems: []datasource.SpecificValue{{ValKind: datasource.KindInt, ValStr: "-3", Threshold: 1}, {ValKind: datasource.KindString, ValStr: "x|y", Threshold: 2}, {ValKind: datasource.KindBool, ValStr: "false", Threshold: 3}, {ValKind: datasource.KindFloat64, ValStr: "2.25", Threshold: 4}}}}
+			SpecificItems: []datasource.SpecificValue{{ValKind: datasource.KindInt, ValStr: "-3", Threshold: 1}, {ValKind: datasource.KindString, ValStr: "x|y", Threshold: 2}, {ValKind: datasource.KindBool, ValStr: "false", Threshold: 3}, {ValKind: datasource.KindFloat64, ValStr: "2.25", Threshold: 4},
+				// integers beyond 32 bits (phone numbers, ids) are ordinary argument values
+				{ValKind: datasource.KindInt, ValStr: "13800138000", Threshold: 9000000000}, {ValKind: datasource.KindInt, ValStr: "-9000000000", Threshold: 6}}}}
 		want := []*hotspot.Rule{{ID: "1", Resource: "r", MetricType: hotspot.QPS, ControlBehavior: hotspot.Throttling, ParamIndex: -2, Threshold: 9, MaxQueueingTimeMs: 5, DurationInSec: 3, ParamsMaxCapacity: 77,
-			SpecificItems: map[interface{}]int64{-3: 1, "x|y": 2, false: 3, 2.25: 4}}}
+			SpecificItems: map[interface{}]int64{-3: 1, "x|y": 2, false: 3, 2.25: 4, 13800138000: 9000000000, -9000000000: 6}}}
 		b, _ := json.Marshal(wire)
 		if g, gerr := datasource.HotSpotParamRuleJsonArrayParser([]byte(golden["hotspot"])); gerr != nil || !reflect.DeepEqual(g, want) || string(b) != golden["hotspot"] {
 			c.R.Violate(report.Violation{Signature: signature(m.Name, "round trip"), What: fmt.Sprintf("hotspot: the documented wire text %s decodes to %+v (err %v) / the rules are written as %s", golden["hotspot"], g, gerr, b), Scenario: "hotspot golden wire text", Replay: map[string]string{"module": "hotspot", "wire": golden["hotspot"]}})
